@@ -783,8 +783,9 @@ def bwdCand (l : Live) (p : Pert) (o : Nat) (e : Nat × Dep) : Rat × Rat :=
 
 theorem bwdRelax_eq (l : Live) (p : Pert) (o : Nat) (e : Nat × Dep) :
     bwdRelax l p o e =
-      if p.lft e.1 < 0 ∨ p.lft e.1 ≥ (bwdCand l p o e).2 then
-        { p with lst := upd p.lst e.1 (bwdCand l p o e).1, lft := upd p.lft e.1 (bwdCand l p o e).2 }
+      if p.done e.1 = false ∨ p.lft e.1 ≥ (bwdCand l p o e).2 then
+        { p with lst := upd p.lst e.1 (bwdCand l p o e).1, lft := upd p.lft e.1 (bwdCand l p o e).2,
+                 done := upd p.done e.1 true }
       else p := by
   obtain ⟨pv, d⟩ := e
   cases d <;> rfl
@@ -964,7 +965,8 @@ variable (m : Model)
 def bwdInit (m : Model) (l : Live) (cpl : Rat) (p : Pert) : Pert :=
   { est := p.est, eft := p.eft
     lft := fun t => if (tails m).contains t then cpl else (if t < m.nT then -1 else p.lft t)
-    lst := fun t => if (tails m).contains t then cpl - l.rem t else (if t < m.nT then -1 else p.lst t) }
+    lst := fun t => if (tails m).contains t then cpl - l.rem t else (if t < m.nT then -1 else p.lst t)
+    done := fun _ => false }
 
 theorem pertBwd_eq (l : Live) (p : Pert) :
     pertBwd m l pertReset p =
